@@ -27,6 +27,7 @@ import QEProofs.Lemmas.C04Iters
 import QEProofs.Lemmas.C04Ray
 import QEProofs.Lemmas.C04MinmaxTie
 import QEProofs.Lemmas.C04Mono
+import QEProofs.Lemmas.C04Term2
 import Mathlib.Algebra.Order.Field.Rat
 namespace QE.C04
 open QE QE.Pivot Finset
@@ -361,9 +362,11 @@ def Unbounded (P : LP K) : Prop := ∀ Mb : K, ∃ x, Feasible P x ∧ Mb < obje
 /-- **linprog_classification_partial.** Whenever `linprog_simplex` (exact arithmetic) does not
     stop at the iteration cap, its status is the true class of the program: success exactly
     when an optimum exists, status 2 exactly when the constraints are infeasible, status 3
-    exactly when the objective is unbounded.  *Partial*: that status 1 does not occur for a
-    large enough `max_iter` (termination of the lexicographic rule) is not proved; the
-    correspondence run counts status 1 (never observed with the default cap). -/
+    exactly when the objective is unbounded.  *Partial*: the hypothesis `status ≠ 1` is removed
+    in `linprog_classification` below when `max_iter > 2(N^L+1)+L` and Phase 2 starts from
+    lex-positive rows (`lexStartOK`); when a clean-up pivot divided a row by a negative element
+    `lexStartOK` fails and termination of Phase 2 is not proved (no cycling instance exists in
+    the exhaustive / random scopes of `harness/corpus/c04_term_attack_results.txt`). -/
 theorem linprog_classification_partial (P : LP K) (fuel : ℕ)
     (hcap : (linprogSimplex P fuel tol0).status ≠ 1) :
     ((linprogSimplex P fuel tol0).status = 0 ↔ HasOptimum P) ∧
@@ -404,6 +407,77 @@ theorem linprog_classification_partial (P : LP K) (fuel : ℕ)
     · exact absurd (f0 h) (fun ho => x03 ho hu)
     · exact absurd (f2 h) (fun hi => x23 hi hu)
     · exact h
+
+/-! ## termination of the lexicographic rule -/
+
+/-- **lex_pivot_descent.** From lexicographically positive constraint rows (read along the
+    right-hand side, then the `slack_start` block — the order `_lex_min_ratio_test` uses), one
+    pivoting iteration of `solve_tableau` keeps all rows lex-positive and makes the criterion
+    row strictly lex-smaller.  (Together with: the criterion row is determined by the basis,
+    `crit_of_basis`, so no basis can recur.) -/
+theorem lex_pivot_descent (skip : Bool) (T : M K) (b : List ℕ) (T' : M K) (b' : List ℕ) (L N : ℕ)
+    (hLN : L ≤ N) (hs : Shape T L N) (hlex : LexRows T L N (N - L))
+    (hst : Step (tol0 : Tol K) skip T b T' b') :
+    LexRows T' L N (N - L) ∧
+      LexLt (lexCols L N (N - L)) (fun col => T'.get L col) (fun col => T.get L col) := by
+  obtain ⟨c, r, _, hr, hp, hpos, hmin, hT, _⟩ := step_data_lex skip T b T' b' L N hs hst
+  subst hT
+  exact ⟨lexRows_pivot T L N (N - L) c r hs (by omega) hlex hr hp hmin,
+    crit_lex_decreases T L N (N - L) c r hs (by omega) hlex hr hp hpos⟩
+
+/-- **phase1_terminates.** Phase 1 of `linprog_simplex` (exact arithmetic) always terminates:
+    its start tableau has the identity in the artificial block and non-negative right-hand
+    sides, hence lex-positive rows; its simplex run makes at most `N^L + 1` iterations
+    (`N = n+m+L` columns, `L = m+k` rows) and never stops at the cap once `max_iter` exceeds
+    that. -/
+theorem phase1_terminates (P : LP K) (fuel : ℕ)
+    (hfuel : (P.n + P.m + (P.m + P.k)) ^ (P.m + P.k) + 1 < fuel) :
+    (solveTableau (tol0 : Tol K) false fuel (initTableau P) (initBasis P)).status ≠ 1 ∧
+    (solveTableau (tol0 : Tol K) false fuel (initTableau P) (initBasis P)).iters
+      ≤ (P.n + P.m + (P.m + P.k)) ^ (P.m + P.k) + 1 :=
+  phase1_loop_terminates P fuel hfuel
+
+/-- **lexStartOK_when_no_cleanup.** If Phase 1 succeeds and the artificial clean-up makes no
+    pivot, Phase 2 starts from lex-positive rows (`lexStartOK`, the predicate the driver
+    evaluates). -/
+theorem lexStartOK_when_no_cleanup (P : LP K) (fuel : ℕ)
+    (h1 : (solvePhase1 tol0 fuel (initTableau P) (initBasis P)).status = 0)
+    (hno : (solvePhase1 tol0 fuel (initTableau P) (initBasis P)).iters
+      = (solveTableau (tol0 : Tol K) false fuel (initTableau P) (initBasis P)).iters) :
+    lexStartOK P fuel (tol0 : Tol K) = true :=
+  lexStartOK_of_no_cleanup P fuel h1 hno
+
+/-- **linprog_terminates.** With `max_iter > 2(N^L+1) + L` and `lexStartOK` (Phase 2 starts
+    from lex-positive rows) `linprog_simplex` (exact arithmetic) never reports status 1.
+    Without `lexStartOK` (a clean-up pivot divided a row by a negative element) the textbook
+    argument does not apply; no cycling instance was found by the search recorded in the
+    evidence. -/
+theorem linprog_terminates_lex (P : LP K) (fuel : ℕ)
+    (hfuel : 2 * ((P.n + P.m + (P.m + P.k)) ^ (P.m + P.k) + 1) + (P.m + P.k) < fuel)
+    (hlex : lexStartOK P fuel (tol0 : Tol K) = true) :
+    (linprogSimplex P fuel tol0).status ≠ 1 :=
+  linprog_terminates P fuel hfuel hlex
+
+/-- **linprog_classification.** Under the same two hypotheses the status *is* the class of the
+    program: success exactly when an optimum exists, status 2 exactly when infeasible, status 3
+    exactly when unbounded — and one of the three always happens. -/
+theorem linprog_classification (P : LP K) (fuel : ℕ)
+    (hfuel : 2 * ((P.n + P.m + (P.m + P.k)) ^ (P.m + P.k) + 1) + (P.m + P.k) < fuel)
+    (hlex : lexStartOK P fuel (tol0 : Tol K) = true) :
+    ((linprogSimplex P fuel tol0).status = 0 ↔ HasOptimum P) ∧
+    ((linprogSimplex P fuel tol0).status = 2 ↔ Infeasible P) ∧
+    ((linprogSimplex P fuel tol0).status = 3 ↔ Unbounded P) ∧
+    (HasOptimum P ∨ Infeasible P ∨ Unbounded P) := by
+  have hcap := linprog_terminates P fuel hfuel hlex
+  obtain ⟨h0, h2, h3⟩ := linprog_classification_partial P fuel hcap
+  refine ⟨h0, h2, h3, ?_⟩
+  have hrange := linprog_status_range P fuel (tol0 : Tol K)
+  simp only [List.mem_cons, List.not_mem_nil, or_false] at hrange
+  rcases hrange with h | h | h | h
+  · exact Or.inl (h0.mp h)
+  · exact absurd h hcap
+  · exact Or.inr (Or.inl (h2.mp h))
+  · exact Or.inr (Or.inr (h3.mp h))
 
 /-! ## `minmax` -/
 
@@ -500,6 +574,16 @@ example : (solveTableau tol0 true 100 (setCriterionRow exUnbounded.c 2
     (solvePhase1 tol0 100 (initTableau exUnbounded) (initBasis exUnbounded)).basis).status = 3 := by
   decide +kernel
 example : lexMinRatio (dropLast (initTableau exOptimal)) 0 4 (0 : ℚ) 0 = (true, 1) := by decide +kernel
+example : lexStartOK exOptimal 100 tol0 = true ∧ lexStartOK exUnbounded 100 tol0 = true := by decide +kernel
+/-- max −x+y s.t. −x−y = 0 (twice): the clean-up pivots on a negative element, so `lexStartOK`
+    fails — the hypothesis of `linprog_terminates_lex` is not vacuous and not always true; the
+    run still terminates with status 0 -/
+def exNegCleanup : LP ℚ :=
+  ⟨2, 0, 2, fnOfList [-1, 1], fnOfMat [], fnOfList [], fnOfMat [[-1, -1], [-1, -1]], fnOfList [0, 0]⟩
+example : lexStartOK exNegCleanup 100 tol0 = false ∧ (linprogSimplex exNegCleanup 100 tol0).status = 0 := by
+  decide +kernel
+example : 2 * ((exOptimal.n + exOptimal.m + (exOptimal.m + exOptimal.k)) ^ (exOptimal.m + exOptimal.k) + 1)
+    + (exOptimal.m + exOptimal.k) < 100 := by decide
 /-- the code's tolerances 1e-6, 1e-7, 1e-13 (as decimal rationals) -/
 def exTol : Tol ℚ := ⟨1/1000000, 1/10000000, 1/10000000000000⟩
 example : (0 : ℚ) ≤ exTol.piv ∧
